@@ -40,6 +40,7 @@ type VirtualMachine struct {
 	importer     importer.Importer
 	os           os.OS
 	modules      map[string]*object.Module
+	deferDepth   int
 	importing    map[string]bool
 	inputGlobals map[string]any
 	globals      map[string]object.Object
@@ -943,6 +944,19 @@ func (vm *VirtualMachine) callFunction(
 	// Set up deferred function calls
 	callFrame := vm.activeFrame
 	defer func() {
+		if len(callFrame.defers) == 0 {
+			return
+		}
+		// Deferred calls run after the frame pointer has been restored, so
+		// a deferred call that defers again does not grow the frame stack:
+		// bound the nesting here, or it ends with the Go stack
+		vm.deferDepth++
+		defer func() { vm.deferDepth-- }()
+		if vm.deferDepth > MaxFrameDepth {
+			result = nil
+			resultErr = errz.EvalErrorf("eval error: max depth of %d deferred calls exceeded", MaxFrameDepth)
+			return
+		}
 		for _, partial := range callFrame.defers {
 			if err := vm.callObject(ctx, partial.Function(), partial.Args()); err != nil {
 				result = nil
